@@ -9,6 +9,7 @@ replace github.com/formancehq/ledger/pkg/client => /repo/pkg/client
 replace google.golang.org/genproto v0.0.0-20200423170343-7949de9c1215 => google.golang.org/genproto v0.0.0-20240903143218-8af14fe29dc1
 
 require (
+	github.com/ThreeDotsLabs/watermill v1.5.1
 	github.com/formancehq/go-libs/v5 v5.6.1
 	github.com/formancehq/ledger v0.0.0-00010101000000-000000000000
 	github.com/jackc/pgx/v5 v5.9.2
@@ -20,7 +21,6 @@ require (
 require (
 	dario.cat/mergo v1.0.2 // indirect
 	github.com/IBM/sarama v1.46.3 // indirect
-	github.com/ThreeDotsLabs/watermill v1.5.1 // indirect
 	github.com/ThreeDotsLabs/watermill-aws v1.0.1 // indirect
 	github.com/ThreeDotsLabs/watermill-http/v2 v2.3.1 // indirect
 	github.com/ThreeDotsLabs/watermill-kafka/v3 v3.1.2 // indirect
